@@ -103,6 +103,18 @@ RETURN_TYPES: Dict[Tuple[str, str], str] = {
     (JOB, "init"): JOB,
 }
 
+# module-level function -> return type (documented return values)
+FUNC_RETURN_TYPES: Dict[str, str] = {
+    "signac.project:get_project": PROJECT,
+    "signac.project:init_project": PROJECT,
+    "signac.project:get_job": JOB,
+    "signac.__main__:_open_job_by_id": JOB,
+    "signac._config:_read_config_file": CONFIGOBJ,
+    "signac._config:_load_config": CONFIGOBJ,
+    "signac.migration.v0_to_v1:_load_config_v1": CONFIGOBJ,
+    "signac.migration.v1_to_v2:_load_config_v2": CONFIGOBJ,
+}
+
 ITER_ELEM = {PROJECT: JOB, CURSOR: JOB, LIST_JOB: JOB}
 
 
@@ -247,6 +259,8 @@ class Calls:
             return None
         if isinstance(e, ast.Call):
             f = e.func
+            if isinstance(f, ast.Subscript) and isinstance(f.value, ast.Name) and f.value.id == "_CONFIG_LOADERS":
+                return CONFIGOBJ  # registry of the per-version config loaders (signac.migration)
             if isinstance(f, ast.Name):
                 t = self.type_of(f, fi, env)
                 if t and t.startswith("type:"):
@@ -260,6 +274,9 @@ class Calls:
                         return "list:" + ITER_ELEM[t2]
                 if f.id == "iter" and len(e.args) == 1:
                     return self.type_of(e.args[0], fi, env)
+                tf = self.resolve_name_to_func(fi.module, f.id, fi)
+                if tf is not None and tf.qual in FUNC_RETURN_TYPES:
+                    return FUNC_RETURN_TYPES[tf.qual]
                 return None
             if isinstance(f, ast.Attribute):
                 bt = self.type_of(f.value, fi, env)
